@@ -23,7 +23,9 @@ def units(ctx):
 
 def fft_helpers():
     """the integer / padding helper of the FFT path: pad_power_of_two (the transforms themselves stay trusted stubs)"""
-    h = Unit("C11", "fft_helpers", preludes=("real", "stdx"), cfg=cfg())
+    from vx.extract import Config
+    hc = Config(extra_subst=[("Complex<N>", "C"), ("Polynomial<N>", "Polynomial"), ("Polynomial::<N>", "Polynomial")])
+    h = Unit("C11", "fft_helpers", preludes=("real", "stdx"), cfg=hc)
     h.item(PFILE, "struct", "Polynomial")
     h.spec(POLY_SPEC)
     h.spec(r"""
@@ -73,6 +75,27 @@ pub proof fn lemma_pow2i_mono(a: int, b: int) requires 0 <= a <= b ensures 1 <= 
             assert(kk >> 1usize == kk / 2) by(bit_vector);
             assert(k0 as int / pow2i(i + 1) == (k0 as int / pow2i(i)) / 2) by(nonlinear_arith) requires pow2i(i + 1) == 2 * pow2i(i), pow2i(i) >= 1, k0 >= 0;
         }""")
+    # bit_reverse_copy: every write lands inside the result (the index is below 2^num_bits <= len), the result has the input's length
+    h.spec(r"""
+pub struct C { pub re: R, pub im: R }
+impl Clone for C { #[verifier::external_body] fn clone(&self) -> (r: C) ensures r == *self { unimplemented!() } }
+impl Copy for C {}
+// `vec![Complex::new(0, 0); len]` (std): len copies of the zero
+#[verifier::external_body]
+pub fn vx_zero_vec(len: usize) -> (v: Vec<C>) ensures v@.len() == len { unimplemented!() }
+// `(len as f64).log2() as usize`: the floor of the binary logarithm (trusted: f64 represents every len <= 2^30 exactly and log2 is exact on powers of two)
+#[verifier::external_body]
+pub fn vx_log2_floor(len: usize) -> (r: usize) ensures len >= 1 ==> pow2i(r as int) <= len < 2 * pow2i(r as int), len == 0 ==> r == 0 { unimplemented!() }
+""")
+    b = h.fn(PFILE, "bit_reverse_copy")
+    b.opt(subst=[("vec![Complex::new(N::zero(), N::zero()); len]", "vx_zero_vec(len)", "R39-vec-repeat"),
+                 ("(len as f64).log2() as usize", "vx_log2_floor(len)", "R39-log2-floor")])
+    b.req("vec@.len() <= 0x4000_0000usize")
+    b.ens("res@.len() == vec@.len()")
+    b.hint("before: for k in", """proof {
+        if len >= 1 && num_bits > 30 { lemma_pow2i_mono(31, num_bits as int); assert(pow2i(31) == 0x8000_0000) by(compute_only); }
+    }""")
+    b.loop(1, invariant=["result@.len() == len", "len == vec@.len()", "num_bits <= 30", "len >= 1 ==> pow2i(num_bits as int) <= len"])
     g.hint("before: result >>= 1", "proof { let r = result; assert(r >> 1usize == r / 2) by(bit_vector); lemma_brev_bound(k0 as int, num_bits as int); }")
     return h
 
@@ -84,16 +107,18 @@ DECIDED = [
     "is the larger of the old length and the SMALLEST power of two >= size (bit-vector reasoning for `power <<= 1`; sizes up to 2^30)",
     "bit_reverse (unit fft_helpers): the result is the num_bits-bit reversal of k (recursive specification brev: bit j-1-i of the result is bit i of k) and therefore an index below 2^num_bits (num_bits <= 30; "
     "or / shift / mask steps by bit-vector reasoning)",
+    "bit_reverse_copy (unit fft_helpers): the result has the input's length and every write `result[bit_reverse(k, num_bits)]` is inside it (index below 2^num_bits <= len), for inputs up to 2^30 entries",
     "multiply(): scalar paths and both linear-factor paths return exactly the stated combination, which is proved to be the convolution sum_{i} a_i b_{k-i} (lemma_exact_paths_are_convolution); all Mul/MulAssign forms dispatch to it",
 ]
 NOT_DECIDED = [
-    "bit_reverse_copy (its num_bits comes from a float log2), dft, idft: not under contract",
+    "bit_reverse_copy: that the result is the bit-reversal PERMUTATION of the input (needs injectivity of the reversal; only length and in-bounds writes are decided); dft, idft: not under contract",
     "the FFT path of multiply() (both operands of degree >= 2): dft/idft are trusted stubs that promise only a non-empty result; nothing about the product's coefficients, degree, commutativity or the DFT/inverse-DFT identities is decided",
     "complex coefficients (the pinned tree conjugated complex FFT products through sqrt(-1-0i) = -i: invisible to the contracts, found by the bounded witness probe witness/src/bin/c11.rs and fixed upstream-style)",
     "rounding bound proportional to machine epsilon",
     "commutativity and agreement with pointwise multiplication of values (follow from the convolution form on the exact paths; not stated as lemmas)",
 ]
 ASSUMPTIONS = [
+    "unit fft_helpers, rule R39: `vec![zero; len]` is a vector of length len (std); `(len as f64).log2() as usize` is the floor of the binary logarithm of len (trusted: exact for len <= 2^30); sizes bounded by 2^30 (preconditions)",
     "trusted axiom (prelude/stdx.rs): slice elements that an iter_mut().take(m) never yields keep their values",
     "trusted shim vx_vec_from_slice for Vec::from(&[R])",
     "operand lengths sum below usize::MAX (Vec::with_capacity(max) / bound*2 arithmetic)",
